@@ -12,6 +12,7 @@ import (
 	"fmt"
 	"io"
 	"os"
+	"runtime"
 	"sort"
 	"strings"
 	"sync"
@@ -265,6 +266,14 @@ func roundTrips(mi *core.MetaInfo) (clause, msg string) {
 	return "", ""
 }
 
+// bracket turns a history context (", after ...") into a fingerprint suffix.
+func bracket(ctx string) string {
+	if ctx == "" {
+		return ""
+	}
+	return " [" + strings.TrimPrefix(ctx, ", ") + "]"
+}
+
 type counters struct {
 	evals, empty, exact, shortLast, multi, single, roundTrips, streamEqBytes int64
 }
@@ -294,8 +303,12 @@ func digestOf(pattern string, b []byte) (core.Digest, error) {
 	return d, nil
 }
 
-// checkCore evaluates one (length, piece length, pattern).
-func checkCore(n int, pl int64, pattern string, c *counters) ([]fail, error) {
+// checkCore evaluates one (length, piece length, pattern) through the bytes
+// generator and the stream generator over the given reader behaviours. ctx is
+// "" for an independent evaluation or names the call history that preceded it
+// (it becomes part of the fingerprint); full=false skips the serialize/parse
+// round trips.
+func checkCore(n int, pl int64, pattern string, c *counters, readers []readerKind, ctx string, full bool) ([]fail, error) {
 	var fails []fail
 	data := content(pattern, n)
 	d, err := digestOf(pattern, data)
@@ -309,7 +322,7 @@ func checkCore(n int, pl int64, pattern string, c *counters) ([]fail, error) {
 			gen = "bytes"
 		}
 		fails = append(fails, fail{
-			fp:     fmt.Sprintf("%s [%s generator]", clause, gen),
+			fp:     fmt.Sprintf("%s [%s generator%s]", clause, gen, ctx),
 			detail: map[string]interface{}{"case": caseID{n, pl, pattern, via}, "msg": msg},
 		})
 	}
@@ -324,6 +337,9 @@ func checkCore(n int, pl int64, pattern string, c *counters) ([]fail, error) {
 			add(via, clause, msg)
 			return nil
 		}
+		if !full {
+			return mi
+		}
 		if clause, msg := roundTrips(mi); clause != "" {
 			add(via, clause, msg)
 			return nil
@@ -336,13 +352,13 @@ func checkCore(n int, pl int64, pattern string, c *counters) ([]fail, error) {
 	if !bytes.Equal(cp, data) {
 		add("bytes", "generator modified its input buffer", "")
 	}
-	for _, rk := range readerKinds {
+	for _, rk := range readers {
 		rk := rk
 		mi := one(rk.name, func() (*core.MetaInfo, error) { return core.NewMetaInfo(d, rk.mk(data, pl), pl) })
 		if mi != nil && fromBytes != nil {
 			if m := sameLayout(fromBytes, mi); m != "" {
 				fails = append(fails, fail{
-					fp:     "stream and buffer metainfo differ",
+					fp:     "stream and buffer metainfo differ" + bracket(ctx),
 					detail: map[string]interface{}{"case": caseID{n, pl, pattern, rk.name}, "msg": m},
 				})
 			} else {
@@ -364,6 +380,170 @@ func checkCore(n int, pl int64, pattern string, c *counters) ([]fail, error) {
 		atomic.AddInt64(&c.single, 1)
 	}
 	return fails, nil
+}
+
+// ---------------------------------------------------------------------------
+// Call histories: the metainfo of a blob must not depend on what was generated
+// before it (in particular not on an earlier generation whose stream failed).
+
+var errInjected = errors.New("verif: injected read failure")
+
+// failingReader delivers the first k bytes of b and then fails with a non-EOF
+// error: together with the last bytes (together=true) or on the next Read.
+type failingReader struct {
+	b        []byte
+	k        int
+	together bool
+	chunk    int // max bytes per Read (<=0: all k at once)
+}
+
+func (r *failingReader) Read(p []byte) (int, error) {
+	if len(p) == 0 {
+		return 0, nil
+	}
+	if r.k == 0 {
+		return 0, errInjected
+	}
+	n := r.k
+	if r.chunk > 0 && n > r.chunk {
+		n = r.chunk
+	}
+	if n > len(p) {
+		n = len(p)
+	}
+	copy(p, r.b[:n])
+	r.b = r.b[n:]
+	r.k -= n
+	if r.k == 0 && r.together {
+		return n, errInjected
+	}
+	return n, nil
+}
+
+type hcounters struct {
+	failPairs, failedAsIntended, partialPiece, firstSucceeded, okPairs, seconds int64
+}
+
+var historyReaders = []readerKind{readerKinds[0], readerKinds[1], readerKinds[5]} // bytes.Reader, one-byte, all+EOF
+
+type hcase struct {
+	n       int
+	pl      int64
+	pattern string
+}
+
+// historyPhase runs on ONE goroutine with GOMAXPROCS(1) and the OS thread
+// locked, so that any per-P cached object (sync.Pool, free lists) released by
+// the first call of a pair is the one the second call picks up.
+func historyPhase(run *evid.Run, thorough bool, c *counters, hc *hcounters, deadline time.Time) (fails []fail, capped bool, err error) {
+	old := runtime.GOMAXPROCS(1)
+	runtime.LockOSThread()
+	defer func() {
+		runtime.UnlockOSThread()
+		runtime.GOMAXPROCS(old)
+	}()
+	const repeats = 3
+	maxLen, maxPL := 16, int64(6)
+	if thorough {
+		maxLen, maxPL = 40, 12
+	}
+	second := func(t hcase, ctx string) error {
+		fs, err := checkCore(t.n, t.pl, t.pattern, c, historyReaders, ctx, false)
+		hc.seconds++
+		fails = append(fails, fs...)
+		return err
+	}
+	// (failed stream call, successful call)
+	for n := 0; n <= maxLen; n++ {
+		for pl := int64(1); pl <= maxPL; pl++ {
+			if time.Now().After(deadline) {
+				return fails, true, nil
+			}
+			for pi, pattern := range patterns {
+				data := content(pattern, n)
+				d, err := digestOf(pattern, data)
+				if err != nil {
+					return nil, false, err
+				}
+				targets := []hcase{
+					{n, pl, pattern},
+					{(n + 5) % (maxLen + 1), pl%maxPL + 1, patterns[(pi+1)%len(patterns)]},
+				}
+				for k := 0; k <= n; k++ {
+					for _, together := range []bool{false, true} {
+						for _, chunk := range []int{0, 1} {
+							if chunk == 1 && k < 2 {
+								continue
+							}
+							for ti, t := range targets {
+								run.Distinct(fmt.Sprintf("HF%d/%d/%s/%d/%v/%d/%d", n, pl, pattern, k, together, chunk, ti))
+								for rep := 0; rep < repeats; rep++ {
+									hc.failPairs++
+									var ferr error
+									var mi *core.MetaInfo
+									func() {
+										defer func() {
+											if r := recover(); r != nil {
+												fails = append(fails, fail{fp: "panic in metainfo generation [failing stream]", detail: map[string]interface{}{"case": caseID{n, pl, pattern, "failing"}, "delivered": k, "panic": fmt.Sprint(r)}})
+												ferr = errInjected
+											}
+										}()
+										mi, ferr = core.NewMetaInfo(d, &failingReader{b: data, k: k, together: together, chunk: chunk}, pl)
+									}()
+									if ferr != nil {
+										hc.failedAsIntended++
+									} else {
+										// The statement does not say what a generation over a failing
+										// stream returns; it is only counted.
+										_ = mi
+										hc.firstSucceeded++
+									}
+									if int64(k)%pl != 0 {
+										hc.partialPiece++
+									}
+									if err := second(t, ", after a failed stream call"); err != nil {
+										return nil, false, err
+									}
+								}
+							}
+						}
+					}
+				}
+			}
+		}
+	}
+	// (successful call A, successful call B), A != B, every ordered pair.
+	lens, pls := []int{0, 1, 2, 3, 4, 5, 8}, []int64{1, 2, 3, 4}
+	if thorough {
+		lens, pls = []int{0, 1, 2, 3, 4, 5, 6, 8, 9, 12}, []int64{1, 2, 3, 4, 6}
+	}
+	var cs []hcase
+	for _, n := range lens {
+		for _, pl := range pls {
+			for _, p := range patterns {
+				cs = append(cs, hcase{n, pl, p})
+			}
+		}
+	}
+	for ai, a := range cs {
+		if time.Now().After(deadline) {
+			return fails, true, nil
+		}
+		for bi, b := range cs {
+			if ai == bi {
+				continue
+			}
+			run.Distinct(fmt.Sprintf("HS%d/%d", ai, bi))
+			hc.okPairs++
+			if err := second(a, ""); err != nil {
+				return nil, false, err
+			}
+			if err := second(b, ", after a successful call on another blob"); err != nil {
+				return nil, false, err
+			}
+		}
+	}
+	return fails, false, nil
 }
 
 // ---------------------------------------------------------------------------
@@ -585,8 +765,13 @@ func main() {
 		jobs = append(jobs, job{tbl: &tables[i]})
 	}
 
-	run.Rule = fmt.Sprintf("A: every blob length 0..%d x piece length 1..%d (plus 2^k,2^k+-1 up to 2^%d with lengths m*pl+{-1,0,1}, m<=3, plus 5 huge piece lengths) x %d content patterns; each through NewMetaInfoFromBytes and NewMetaInfo over %d reader behaviours, then Serialize/DeserializeMetaInfo and TorrentMeta; a case is distinct per (length, piece length, pattern), non-trivial when the blob is non-empty. B: every piece-length table with 1..%d thresholds from %v and piece lengths from %v x every blob size 0..%d, GetPieceLength and Generate on a real CAStore; distinct per (table, size).",
-		maxLen, maxPL, maxPow, len(patterns), len(readerKinds), maxN, ths, tpls, maxSize)
+	hLen, hPL, hPairs := 16, 6, 84
+	if thorough {
+		hLen, hPL, hPairs = 40, 12, 150
+	}
+	run.Rule = fmt.Sprintf("A: every blob length 0..%d x piece length 1..%d (plus 2^k,2^k+-1 up to 2^%d with lengths m*pl+{-1,0,1}, m<=3, plus 5 huge piece lengths) x %d content patterns; each through NewMetaInfoFromBytes and NewMetaInfo over %d reader behaviours, then Serialize/DeserializeMetaInfo and TorrentMeta; a case is distinct per (length, piece length, pattern), non-trivial when the blob is non-empty. H (call histories, one goroutine, GOMAXPROCS(1), thread locked, each pair 3 times): for every length 0..%d x piece length 1..%d x pattern, a first NewMetaInfo over a stream that delivers k bytes (every k in 0..length; error with the last bytes or on the next read; whole or 1-byte reads) and then fails with a non-EOF error, followed by a successful bytes + stream (3 readers) generation of the same and of another blob; plus every ordered pair of different successful generations over %d small cases; the second call is judged by the same oracle. B: every piece-length table with 1..%d thresholds from %v and piece lengths from %v x every blob size 0..%d, GetPieceLength and Generate on a real CAStore; distinct per (table, size).",
+		maxLen, maxPL, maxPow, len(patterns), len(readerKinds), hLen, hPL, hPairs, maxN, ths, tpls, maxSize)
+	run.Assume("call histories: metainfo must not depend on earlier generations; histories of length 2 (a failed or a successful call, then the judged call) on one P expose state kept between calls; what a generation over a failing stream itself returns is not judged")
 	run.Assume("small-scope: defects in piece splitting / table lookup show on blobs of at most a few hundred bytes (4096*3+1 for power-of-two piece lengths) and tables of at most 4 thresholds")
 	run.Assume("content: three byte patterns (zeros, counter, fixed xorshift table) stand for arbitrary contents; the checksum reference is an independently written CRC-32/IEEE")
 	run.Assume("sizes below the smallest configured threshold are outside the statement: only 'Generate succeeds and describes the blob' is required there")
@@ -601,6 +786,21 @@ func main() {
 	if thorough {
 		deadline = time.Now().Add(13 * time.Minute)
 	}
+	// History phase first (single P, see historyPhase), then the independent
+	// evaluations in parallel.
+	var hc hcounters
+	hdl := time.Now().Add(25 * time.Second)
+	if thorough {
+		hdl = time.Now().Add(6 * time.Minute)
+	}
+	hfails, hcapped, herr := historyPhase(run, thorough, &c, &hc, hdl)
+	if herr != nil {
+		run.Fatal(herr)
+	}
+	if hcapped {
+		run.NotExhaustive("deadline hit in the call-history phase")
+	}
+	allFails = append(allFails, hfails...)
 	var next, skipped int64 = -1, 0
 	var wg sync.WaitGroup
 	for w := 0; w < evid.Workers(); w++ {
@@ -633,7 +833,7 @@ func main() {
 					if j.tbl != nil {
 						fs, err = checkTable(*j.tbl, maxSize, &tc)
 					} else {
-						fs, err = checkCore(j.n, j.pl, j.pattern, &c)
+						fs, err = checkCore(j.n, j.pl, j.pattern, &c, readerKinds, "", true)
 					}
 				}()
 				mu.Lock()
@@ -670,6 +870,12 @@ func main() {
 	run.Set("core_cases_multi_piece", c.multi)
 	run.Set("core_cases_single_piece", c.single)
 	run.Set("core_extra_power_of_two_cases", nPow)
+	run.Set("history_pairs(failed stream call, successful call) incl. 3 repeats", hc.failPairs)
+	run.Set("history_first_call_returned_error", hc.failedAsIntended)
+	run.Set("history_first_call_returned_no_error", hc.firstSucceeded)
+	run.Set("history_first_call_failed_inside_a_piece", hc.partialPiece)
+	run.Set("history_pairs(successful call A, successful call B)", hc.okPairs)
+	run.Set("history_second_call_evaluations", hc.seconds)
 	run.Set("tables", len(tables))
 	run.Set("table_lookups", tc.lookups)
 	run.Set("table_lookups_size_equals_a_threshold", tc.atThreshold)
@@ -679,8 +885,8 @@ func main() {
 	run.Sample(map[string]interface{}{"kind": "core", "blob_length": 34, "piece_length": 17, "pattern": "counter", "expect": "2 pieces of 17, sums = CRC32 of each half, same info hash from all readers and from bytes"})
 	run.Sample(map[string]interface{}{"kind": "core", "blob_length": 0, "piece_length": 5, "expect": "0 pieces, length 0"})
 	run.Sample(map[string]interface{}{"kind": "table", "table": "{0:1,5:2,10:4}", "size": 5, "expect": "piece length 2"})
-	if c.exact == 0 || c.shortLast == 0 || c.empty == 0 || c.multi == 0 || tc.atThreshold == 0 || tc.belowNext == 0 {
-		if skipped == 0 {
+	if c.exact == 0 || c.shortLast == 0 || c.empty == 0 || c.multi == 0 || tc.atThreshold == 0 || tc.belowNext == 0 || hc.partialPiece == 0 || hc.failedAsIntended == 0 || hc.okPairs == 0 {
+		if skipped == 0 && !hcapped {
 			run.Fatal(errors.New("vacuity: a boundary class was never exercised"))
 		}
 	}
